@@ -36,6 +36,7 @@ CONSTANTS NQ, NR,            \* number of request / response segments (1 = unseg
           AppDelay,          \* how long the server application takes to respond
           RecvMult, SeqMod,
           MaxDrop, MaxDup, MaxDelay, DelayBy,
+          MaxShrink,         \* how many segment acks the medium may rewrite to grant a smaller window (a peer that shrinks its window)
           ResendSeg0OnNoWin, IndexFromSeq, IgnoreStaleAck,
           IdleAcceptsAnySeq,   \* TRUE: a segmented request whose first received segment is not number 0 starts a
                                \* transaction all the same -- the pinned tree (finding F25); FALSE: it is answered with an abort
@@ -43,7 +44,7 @@ CONSTANTS NQ, NR,            \* number of request / response segments (1 = unseg
                                \* for an earlier segment) is taken for the final ack -- the pinned tree (finding F24)
           MaxNow             \* state constraint for configurations with unbounded deviations
 
-VARIABLES now, net, nDrop, nDup, nDelay,
+VARIABLES now, net, nDrop, nDup, nDelay, nShrink,
           c, s,              \* client / server transaction records
           cOut,              \* observation: outcomes delivered to the client application
           sInd,              \* observation: requests indicated to the server application
@@ -52,7 +53,7 @@ VARIABLES now, net, nDrop, nDup, nDelay,
           tx,                \* frames emitted by the last step
           act                \* the last step: [n |-> name, i |-> frame index]
 
-vars == <<now, net, nDrop, nDup, nDelay, c, s, cOut, sInd, sApp, wire, tx, act>>
+vars == <<now, net, nDrop, nDup, nDelay, nShrink, c, s, cOut, sInd, sApp, wire, tx, act>>
 NONE == 999999
 
 \* ---- frames ------------------------------------------------------------------
@@ -80,7 +81,7 @@ CInit == [st |-> "IDLE", retry |-> 0, segRetry |-> 0, init |-> 0, last |-> 0, wi
 SInit == [st |-> "NOTXN", segRetry |-> 0, init |-> 0, last |-> 0, win |-> NONE,
           sentAll |-> FALSE, ddl |-> NONE, rx |-> <<>>, base |-> 0]
 
-Init == /\ now = 0 /\ net = <<>> /\ nDrop = 0 /\ nDup = 0 /\ nDelay = 0
+Init == /\ now = 0 /\ net = <<>> /\ nDrop = 0 /\ nDup = 0 /\ nDelay = 0 /\ nShrink = 0
         /\ c = CInit /\ s = SInit /\ cOut = <<>> /\ sInd = <<>> /\ sApp = <<>> /\ wire = <<>> /\ tx = <<>>
         /\ act = [n |-> "Init", i |-> 0]
 
@@ -95,7 +96,7 @@ CStart(retry) ==
 Submit == /\ c.st = "IDLE" /\ cOut = <<>> /\ wire = <<>>
           /\ c' = CStart(0)
           /\ tx' = <<ReqSeg(0, PWC)>>
-          /\ UNCHANGED <<now, nDrop, nDup, nDelay, s, cOut, sInd, sApp>>
+          /\ UNCHANGED <<now, nDrop, nDup, nDelay, nShrink, s, cOut, sInd, sApp>>
 
 CTerminal(st) == [c EXCEPT !.st = st, !.ddl = NONE]
 Outcome(k) == cOut' = Append(cOut, [k |-> k, rx |-> IF k = "ack" THEN c'.rx ELSE <<>>, at |-> now])
@@ -254,7 +255,7 @@ AppRespond ==
       ELSE /\ s' = [s EXCEPT !.st = "SEG_RESP", !.segRetry = 0, !.init = 0, !.win = NONE, !.sentAll = FALSE,
                              !.base = 0, !.ddl = now + Tseg]
            /\ tx' = <<RespSeg(0, PWS)>>
-   /\ UNCHANGED <<now, nDrop, nDup, nDelay, c, cOut, sInd>>
+   /\ UNCHANGED <<now, nDrop, nDup, nDelay, nShrink, c, cOut, sInd>>
 
 S_segmented_response(f) ==
    /\ s.st = "SEG_RESP"
@@ -296,11 +297,11 @@ S_timeout ==
                               ELSE SFill(s.init, s.win)
                    /\ UNCHANGED sApp
               ELSE s' = STerminal("GONE") /\ tx' = <<>> /\ UNCHANGED sApp
-   /\ UNCHANGED <<now, nDrop, nDup, nDelay, c, cOut, sInd>>
+   /\ UNCHANGED <<now, nDrop, nDup, nDelay, nShrink, c, cOut, sInd>>
 
 C_timeout ==
    /\ (C_segmented_request_timeout \/ C_await_confirmation_timeout \/ C_segmented_confirmation_timeout)
-   /\ UNCHANGED <<now, nDrop, nDup, nDelay, s, sInd, sApp>>
+   /\ UNCHANGED <<now, nDrop, nDup, nDelay, nShrink, s, sInd, sApp>>
 
 \* ---- medium: per-direction FIFO; Drop / Dup / Delay are counted faults -------------
 RemoveAt(q, i) == SubSeq(q, 1, i - 1) \o SubSeq(q, i + 1, Len(q))
@@ -316,19 +317,24 @@ Deliver(i) ==
       \/ /\ f.dir = "cs" /\ ServerRecv(f)
    /\ net' = RemoveAt(net, i) \o tx' /\ wire' = wire \o tx'
    /\ act' = [n |-> "Deliver", i |-> i]
-   /\ UNCHANGED <<now, nDrop, nDup, nDelay>>
+   /\ UNCHANGED <<now, nDrop, nDup, nDelay, nShrink>>
 
 Quiet == tx' = <<>> /\ UNCHANGED <<c, s, cOut, sInd, sApp, wire>>
 Drop(i) == /\ nDrop < MaxDrop /\ DeliverableAt(i)
            /\ net' = RemoveAt(net, i) /\ nDrop' = nDrop + 1 /\ act' = [n |-> "Drop", i |-> i]
-           /\ Quiet /\ UNCHANGED <<now, nDup, nDelay>>
+           /\ Quiet /\ UNCHANGED <<now, nDup, nDelay, nShrink>>
 Dup(i)  == /\ nDup < MaxDup /\ DeliverableAt(i)
            /\ net' = InsertAfter(net, i, net[i]) /\ nDup' = nDup + 1 /\ act' = [n |-> "Dup", i |-> i]
-           /\ Quiet /\ UNCHANGED <<now, nDrop, nDelay>>
+           /\ Quiet /\ UNCHANGED <<now, nDrop, nDelay, nShrink>>
 Delay(i) == /\ nDelay < MaxDelay /\ DeliverableAt(i) /\ net[i].at = now
             /\ net' = [net EXCEPT ![i].at = now + DelayBy]
             /\ nDelay' = nDelay + 1 /\ act' = [n |-> "Delay", i |-> i]
-            /\ Quiet /\ UNCHANGED <<now, nDrop, nDup>>
+            /\ Quiet /\ UNCHANGED <<now, nDrop, nDup, nShrink>>
+
+\* the peer grants a smaller window in a segment ack than before (modelled as the medium rewriting the ack)
+Shrink(i) == /\ nShrink < MaxShrink /\ DeliverableAt(i) /\ net[i].k = "ACK" /\ net[i].win > 1
+             /\ net' = [net EXCEPT ![i].win = 1] /\ nShrink' = nShrink + 1 /\ act' = [n |-> "Shrink", i |-> i]
+             /\ Quiet /\ UNCHANGED <<now, nDrop, nDup, nDelay>>
 
 Timers == {t \in {c.ddl, s.ddl} : t # NONE}
 Deadlines == Timers \cup {net[i].at : i \in 1..Len(net)} \cup {sApp[i] : i \in 1..Len(sApp)}
@@ -336,11 +342,11 @@ Tick == /\ ~AnyDeliverable /\ (IF sApp = <<>> THEN TRUE ELSE Head(sApp) > now)
         /\ \A t \in Timers : t > now
         /\ Deadlines # {}
         /\ now' = CHOOSE t \in Deadlines : \A u \in Deadlines : t <= u
-        /\ net' = net /\ Quiet /\ act' = [n |-> "Tick", i |-> 0] /\ UNCHANGED <<nDrop, nDup, nDelay>>
+        /\ net' = net /\ Quiet /\ act' = [n |-> "Tick", i |-> 0] /\ UNCHANGED <<nDrop, nDup, nDelay, nShrink>>
 
 Emit0 == net' = net \o tx' /\ wire' = wire \o tx'
 Next == \/ Submit /\ Emit0 /\ act' = [n |-> "Submit", i |-> 0]
-        \/ \E i \in 1..Len(net) : Deliver(i) \/ Drop(i) \/ Dup(i) \/ Delay(i)
+        \/ \E i \in 1..Len(net) : Deliver(i) \/ Drop(i) \/ Dup(i) \/ Delay(i) \/ Shrink(i)
         \/ C_timeout /\ Emit0 /\ act' = [n |-> "CTimeout", i |-> 0]
         \/ S_timeout /\ Emit0 /\ act' = [n |-> "STimeout", i |-> 0]
         \/ AppRespond /\ Emit0 /\ act' = [n |-> "AppRespond", i |-> 0]
@@ -351,7 +357,7 @@ TimeBound == now <= MaxNow /\ Len(c.rx) <= NR + 2 /\ Len(s.rx) <= NQ + 2
 
 \* ---- properties --------------------------------------------------------------
 Quiescent == net = <<>> /\ Timers = {} /\ sApp = <<>> /\ wire # <<>>
-Faults == nDrop + nDup + nDelay
+Faults == nDrop + nDup + nDelay + nShrink
 Expected(n) == [i \in 1..n |-> i - 1]
 IsData(f) == f.k \in {"CR", "CA"}
 
@@ -384,12 +390,15 @@ MoreFollows == \A i \in 1..Len(wire) : IsData(wire[i]) /\ wire[i].seg =>
                   (wire[i].mor <=> wire[i].tok < (IF wire[i].k = "CR" THEN NQ ELSE NR) - 1)
 SeqMatchesIndex == \A i \in 1..Len(wire) : IsData(wire[i]) /\ wire[i].seg => wire[i].seq = wire[i].tok % SeqMod
 WindowBound == LET d == SelectSeq(tx, IsData) IN Len(d) > 1 => Len(d) <= d[1].win
+\* after a segment ack the sender never bursts more segments than that ack grants
+A_WindowRespectsAck == (act'.n = "Deliver" /\ net[act'.i].k = "ACK") => Len(SelectSeq(tx', IsData)) <= net[act'.i].win
+WindowRespectsAck == [][A_WindowRespectsAck]_vars
 WindowRange == \A i \in 1..Len(wire) : (wire[i].k = "ACK" \/ (IsData(wire[i]) /\ wire[i].seg)) =>
                   wire[i].win \in 1..127
 \* deliberately false: used to show that the local no-response abort is reachable (vacuity check)
 SanityNoLocalAbort == \A i \in 1..Len(cOut) : cOut[i].k # "abort_noresp"
 Want == IF RK = "abort" THEN "abort_peer" ELSE RK
 \* (a lost frame can only be repaired by a retransmission, so at least one retry must be configured)
-SingleFaultRepaired == (Quiescent /\ Faults <= 1 /\ AppDelay < Tapp /\ (Faults = 0 \/ Retries >= 1)) => (Len(cOut) = 1 /\ cOut[1].k = Want)
+SingleFaultRepaired == (Quiescent /\ Faults <= 1 /\ nShrink = 0 /\ AppDelay < Tapp /\ (Faults = 0 \/ Retries >= 1)) => (Len(cOut) = 1 /\ cOut[1].k = Want)
 FaultFreeSucceeds == (Quiescent /\ Faults = 0 /\ AppDelay < Tapp) => (Len(cOut) = 1 /\ cOut[1].k = Want)
 =============================================================================
